@@ -136,6 +136,19 @@ func outer(x) {
 r := outer(1)
 s := ch(2)
 `},
+	// every variable the command vocabulary names (x a z c d y) holds something json.Marshal has trouble with when
+	// the thread stops at line 10: +Inf, -Inf, NaN (also nested), number keys, a function value
+	"hostile": {Src: "hostile", BP: 10, BP2: 8, Text: `x := 99999999999999999999999999999999999999
+x := x * x * x * x * x * x * x * x * x
+a := [x, -x, x - x]
+z := {"n" : x - x, 1 : x}
+c := [x, func () {
+  return 1
+}, {2 : a}]
+d := {"y" : [x - x], 3 : -x}
+y := x - x
+e := 1
+`},
 	"misc": {Src: "misc", BP: 10, BP2: 26, Text: `import "lib" as lib
 sink s1
   kindmatch ["a.b"],
@@ -179,7 +192,7 @@ len(ll)
 `},
 }
 
-var progNames = []string{"flat", "nest", "hold", "err", "misc", "alias"}
+var progNames = []string{"flat", "nest", "hold", "err", "misc", "alias", "hostile"}
 
 // file served by the import locator
 const libSource = "v := 1\n"
